@@ -988,6 +988,7 @@ func routerCorpus() []routerScenario {
 	mk("slow-probe-does-not-freeze-routing", "rr", "health A 1", "slowprobe B", "update A,B", "wait", "wait", "route 6", "gos 3", "wait", "route 4", "close")
 	mk("calls-after-close-with-live-targets", "rr", "health A 1", "health B 1", "update A,B", "wait", "route 2", "close", "route 2", "ctxs 1", "gos 2", "rts 1", "pings 1", "close", "route 1")
 	mk("calls-after-close-with-a-director", "rr", "health A 1", "health Z 1", "update A", "wait", "director Z", "route 1", "close", "route 2", "ctxs 1", "gos 1")
+	mk("rotation-survives-passes-with-a-dead-target", "rr", "health A 1", "health B 1", "health C 1", "health D 1", "health E 1", "health F 1", "update A,B,C,D,E,F", "wait", "health F 0", "route 8", "wait", "wait", "route 3", "wait", "wait", "wait", "route 4", "wait", "gos 2")
 	mk("waiters-released", "rr", "health A 0", "update A", "wait", "park 3 call", "park 2 go", "health A 1", "wait", "settle", "route 1")
 	mk("waiters-timeout", "rr", "health A 0", "update A", "wait", "park 2 call", "park 1 ctx", "park 1 go", "park 1 rt", "park 1 ping", "expire", "settle")
 	mk("waiters-close", "rr", "health A 0", "update A", "wait", "park 2 call", "park 1 ctx", "park 1 go", "close", "settle", "route 1", "gos 1", "close")
